@@ -150,6 +150,13 @@ class Index:
                 raise AnalysisError(f"cannot parse {rel}: {e}")
             m = ModuleInfo(dotted, path, rel, tree, src)
             self.modules[dotted] = m
+        # private helpers renamed since the confirmed tree get their reference names back (in the parsed trees only)
+        from . import canon
+        self.renamed_back = {}
+        if not os.environ.get("CXA_NO_CANON"):
+            trees = {k: m.tree for k, m in self.modules.items()}
+            self.renamed_back = canon.detect(trees)
+            canon.apply(trees, self.renamed_back)
         for m in self.modules.values():
             self._index_module(m)
         for m in self.modules.values():
